@@ -19,10 +19,12 @@ C04Lits ==
     <<"pos", A("g", <<P>>)>>, <<"pos", A("l", <<L>>)>>,
     <<"neg", A("s", <<X>>)>>, <<"neg", A("s", <<Y>>)>>, <<"neg", A("s", <<W>>)>>, <<"neg", A("t", <<X, Y>>)>>,
     <<"neg", A("t", <<X, W>>)>>,
-    <<"ne", X, Y>>, <<"lt", X, Y>>, <<"eq", X, Y>>, <<"eq", X, N(1)>>, <<"eq", Y, Ap("fn:plus", <<X, N(1)>>)>>,
+    <<"ne", X, Y>>, <<"lt", X, Y>>, <<"eq", X, Y>>, <<"eq", Y, X>>, <<"eq", X, N(1)>>, <<"eq", Y, Ap("fn:plus", <<X, N(1)>>)>>,
     \* a constant opposite a function application (either side), application = application, comparison with an application
     <<"eq", N(3), Ap("fn:plus", <<X, N(1)>>)>>, <<"eq", Ap("fn:plus", <<Y, N(1)>>), N(3)>>,
     <<"eq", Ap("fn:plus", <<X, N(1)>>), Ap("fn:plus", <<Y, N(0)>>)>>, <<"lt", Ap("fn:plus", <<X, N(1)>>), Y>>,
+    \* comparisons of one variable with a constant / through an application (the variable may be an alias from X = Y)
+    <<"ne", Y, N(2)>>, <<"lt", Y, N(3)>>, <<"ne", Ap("fn:plus", <<Y, N(1)>>), N(3)>>,
     <<"bi", ":match_pair", <<P, X, Y>>>>, <<"bi", ":list:member", <<X, L>>>> }
 C04Transforms ==
   { <<"none">>,
@@ -36,5 +38,8 @@ C04Edbs ==
   { { A("q", <<N(1)>>), A("q", <<N(2)>>), A("r", <<N(1), N(2)>>), A("r", <<N(2), N(2)>>), A("r", <<N(3), N(1)>>),
       A("s", <<N(2)>>), A("t", <<N(1), N(2)>>), A("t", <<N(2), N(1)>>),
       A("g", <<Pair(N(1), N(2))>>), A("g", <<Pair(N(2), N(2))>>), A("l", <<List(<<N(1), N(3)>>)>>) } }
+\* three-literal bodies in every order, plain heads, no transform
+C04Heads3 == { A("h", <<X, Y>>), A("h", <<X, X>>) }
+C04None == {<<"none">>}
 KeepAll(r) == TRUE
 =============================================================================
